@@ -267,7 +267,14 @@ def run(ctx):
     # the request-start record: what is reinterpreted as a protocol struct must be there (front() of an emptied vector is undefined, and aborts under _GLIBCXX_ASSERTIONS)
     n_before = len(E.obligations)
     E.front_needs_element = True
-    E.analyse(P.fn(FC + '::on_start_request'), entry=inv)
+    pending_broken = []
+    paths_before = E.paths
+    try:
+        E.analyse(P.fn(FC + '::on_start_request'), entry=inv)
+    except AnalysisBroken as ex_:
+        E.paths = paths_before      # the budget is per engine: the other entry points keep theirs
+        # raised at the end, and only when nothing else was reported: a path explosion caused by a defect another rule names (a missing return after a completion) must not hide that report
+        pending_broken.append(str(ex_))
     E.front_needs_element = False
     # of this entry point only the emptiness obligations are claimed (the sizes of the short replies it builds are not linear facts)
     E.obligations[n_before:] = [ob for ob in E.obligations[n_before:] if ob.kind.endswith('-nonempty')]
@@ -595,6 +602,8 @@ def run(ctx):
     ctx.floor(R9, 2)
     ctx.floor(R6, 7)
     ctx.floor(R8, 5)
+    if pending_broken and not ctx.violations:
+        raise AnalysisBroken(pending_broken[0])
 
 
 def _field_type(P, ref):
